@@ -41,3 +41,6 @@ def run(ctx):
     from . import errors as E
     E.r08_3_implicit(ctx, 'R02.14')
     E.r08_2_user_code(ctx, 'R02.15')
+    R3.r04_10_key_test_table(ctx, 'R02.16')
+    R3.r11_7_per_call_loader(ctx, 'R02.17')
+    S.r01_3_recursion(ctx)
